@@ -13,7 +13,9 @@ hl  <idx> <srv> <client> <puller> <kind> <comp> <chunk> <depth> <stream> <evs> <
 `stream` = `h:<hex>` | `p:<a>:<b>:<len>` (byte i = (a·i+b) mod 251) | `z:<len>` (content not known to the
 model: lengths only); for `raw` it is what the body (or the zstd encoder) wrote into the sink, for `hl`
 the logical bytes.  `evs` = `w<len>`/`f` list, `c<k>` (pieces of k), or `-`.  `end` = ok|err|vanish.
-`script` = `N` (next until terminal) | `n` | `c` (cancel, request) | `k` (cancel, notify).
+`script` = `N` (next until terminal) | `n` | `c` (cancel, request) | `k` (cancel, notify) | `q` (a `next`
+parked on a gated producer + `cancel` from elsewhere while it is parked: prints `* ack`).
+`conc <idx> <srv> <chunk> <depth> <n> <rounds> <L>`: n clients open simultaneously, per round.
 `aux` is the harness's replay recipe (ignored here).
 `duo <idx> <srv> <kind> <chunk> <depth> <streamA> <evsA> <endA> <streamB> <evsB> <endB> <script> <auxA> <auxB>`:
 two streams open at once (uncompressed); script `a|b` (one next), `A|B` (drain), `x|y` (cancel).
@@ -98,6 +100,11 @@ def runScript (F : Facts) (known : Bool) (id fuel : Nat) : List String → Serve
     | "N" =>
       let (sv', rs) := drainNext F id fuel sv []
       runScript F known id fuel ts sv' (("[" ++ joinSp (rs.map (showResp known)) ++ "]") :: acc)
+    | "q" =>
+      -- a `next` parked on a gated producer while a `cancel` from elsewhere is acknowledged: whatever
+      -- the parked request returns (`*`), the stream is released afterwards
+      let (sv', _) := sv.next F id
+      runScript F known id fuel ts (sv'.cancel id) ("ack" :: "*" :: acc)
     | "c" => runScript F known id fuel ts (sv.cancel id) ("ack" :: acc)
     | "k" => runScript F known id fuel ts (sv.cancel id) ("-" :: acc)
     | _ => none
@@ -214,12 +221,42 @@ def duo (idx kind chunk sa ea enda sb eb endb script : String) : String :=
     | _, _ => idx ++ " bad-op"
   | _, _, _, _, _ => idx ++ " bad-op"
 
+/-- `conc`: `n` clients open at the same moment, `rounds` times; client `i` in round `j` pulls the
+pattern payload `(7, (16·i+j) mod 251, L+3·i+j)`.  All streams of a round are open together on one server. -/
+def concRound (F : Facts) (chunk n L j : Nat) : Bool × List String :=
+  let payloads := (List.range n).map fun i => patBytes 7 ((16 * i + j) % 251) (L + 3 * i + j)
+  let step := fun (acc : Server × List (Nat × List Msg)) (data : Bytes) =>
+    match produce F chunk (if data.isEmpty then [] else [.write data]) .ok with
+    | none => acc
+    | some msgs =>
+      let (sv', id) := acc.1.open msgs
+      (sv', acc.2 ++ [(id, msgs)])
+  let (sv, opened) := payloads.foldl step (({} : Server), [])
+  let ids := opened.map (·.1)
+  let distinct := ids.eraseDups.length == ids.length
+  let pull := fun (acc : Server × List String) (im : Nat × List Msg) =>
+    let (sv', rs) := drainNext F im.1 (im.2.length + 2) acc.1 []
+    let bytes := (rs.map fun r => match r with | .chunk b _ => b | .error => []).flatten
+    let lasts := (rs.filter fun r => match r with | .chunk _ q => isLast F.syncLastIs q | .error => false).length
+    let errs := (rs.filter fun r => match r with | .error => true | _ => false).length
+    let tok := if errs > 0 then "err" else
+      toString bytes.length ++ ":" ++ toString (fnv bytes).toNat ++ ":" ++ toString lasts
+    (sv', acc.2 ++ [tok])
+  let (_, toks) := opened.foldl pull (sv, [])
+  (distinct, toks)
+
+def conc (idx chunk n rounds L : String) : String :=
+  let F := Gen.svsFacts
+  let rs := (List.range (natOf rounds)).map fun j => concRound F (natOf chunk) (natOf n) (natOf L) j
+  joinSp ([idx, "conc", if rs.all (·.1) then "distinct" else "same"] ++ (rs.map (·.2)).flatten)
+
 def step (st : Unit) (ws : List String) : Unit × String :=
   match ws with
   | ["raw", idx, _srv, kind, comp, chunk, depth, speed, stream, evs, end_, script, _aux] =>
     (st, raw idx kind comp chunk depth speed stream evs end_ script)
   | ["hl", idx, _srv, client, puller, kind, comp, chunk, _depth, stream, evs, end_, _aux] =>
     (st, hl idx client puller kind comp chunk stream evs end_)
+  | ["conc", idx, _srv, chunk, _depth, n, rounds, L] => (st, conc idx chunk n rounds L)
   | ["duo", idx, _srv, kind, chunk, _depth, sa, ea, enda, sb, eb, endb, script, _auxa, _auxb] =>
     (st, duo idx kind chunk sa ea enda sb eb endb script)
   | _ :: idx :: _ => (st, idx ++ " bad-op")
